@@ -432,6 +432,7 @@ pub static HIST: HistProp = HistProp {
     epoll_each_step: false,
     workers: 8,
     table: None,
+    extra: None,
 };
 
 /// Exhaustive DFS over all schedules of tiny configurations.
